@@ -360,6 +360,15 @@ class Eraser {
         if (!!got[i].spread !== !!expect[i].spread || !simpleEq(unparen(got[i].expression), unparen(expect[i].expression))) { ok = false; break }
       }
     }
+    // user identifiers handed to the hook are second copies of a reference of the wrapped operation (C09 looks at
+    // the positions of both)
+    if (ok) {
+      rec.copies = []
+      for (let i = 0; i < got.length; i++) {
+        const g = unparen(got[i].expression); const e = unparen(expect[i].expression)
+        if (isObj(g) && isObj(e) && g.type === 'Identifier' && e.type === 'Identifier' && !this.isTemp(g) && g.span && e.span && e.span.start > 0) rec.copies.push({ copy: g.span, of: e.span, name: g.value })
+      }
+    }
     if (!ok) {
       rec.restOk = false
       let what = got.length < expect.length ? 'missing' : got.length > expect.length ? 'extra' : 'different'
